@@ -145,12 +145,16 @@ def run(ctx, only=None):
                     f.write(t)
                 files.append(p)
                 expect += mistletoe.markdown(t, R).encode()
+            if i % 4 == 1:
+                # the same file named twice: every argument is rendered, in order
+                files.append(files[0])
+                expect += mistletoe.markdown(open(files[0], encoding='utf-8', newline='').read(), R).encode()
             pr = subprocess.run([sys.executable, '-m', 'mistletoe', '-r', rp] + files, env=env, cwd='/', stdout=subprocess.PIPE,
                                 stderr=subprocess.PIPE, timeout=120)
             ctx.count('evaluations')
             ctx.count('cli_runs')
             if pr.returncode != 0 or pr.stdout != expect:
-                ctx.failing.append({'interface': 'oracle(CLI)', 'input': {'files': [open(p, encoding='utf-8').read() for p in files], 'renderer': rp},
+                ctx.failing.append({'interface': 'oracle(CLI)', 'input': {'files': [open(p, encoding='utf-8').read() for p in files], 'renderer': rp, 'arguments': [os.path.basename(p) for p in files]},
                                     'what': 'python -m mistletoe output differs from mistletoe.markdown on the same texts',
                                     'observed': pr.stdout.decode('utf8', 'replace')[:500], 'expected': expect.decode()[:500], 'kf': None})
     finally:
